@@ -67,7 +67,8 @@ def parseBTree (v : VersionIf) : Nat → Nat → PageType → Py (List BPage)
       let regions : List Region := (cells.map fun c => ((c.start : Int), c.end_)) ++ (fbs.map fun f => ((f.start : Int), (f.end_ : Int)))
       let lay ← layoutCheck v.strict v.pageSize unallocStart unallocEnd hdr.fragBytes regions cellTotal fbTotal
       let me : BPage := { number, ptype, hdr, pageVersion := pv, offset := off, unallocStart, unallocEnd,
-                          cells, freeblocks := fbs, fragments := lay.fragments }
+                          cells, freeblocks := fbs, fragments := lay.fragments,
+                          rootOnly := if hdr.containsDbHeader then (page.slice Generated.SQLITE_DATABASE_HEADER_LENGTH page.size).toList else [] }
       if cls.isInterior then
         match hdr.rightMost with
         | none => .error .attributeError
